@@ -228,6 +228,14 @@ func c16EciesCase(r *mon.R, G c16eg, l, rep int) {
 		}
 	}
 
+	// (3c) extensions: the ciphertext followed by extra bytes
+	for _, extra := range []int{1, 7, 16, 33} {
+		p, e, ok := dec("Decrypt", "extend", x, append(append([]byte(nil), ct...), rng.Bytes(extra)...), hf, "extra", extra)
+		if ok {
+			c.altered("Decrypt", "extend", fmt.Sprintf("extra=%d", extra), p, e, msg, "extra", extra)
+		}
+	}
+
 	// (4) clear-text scan
 	if mclass == "random" {
 		kind, po, co := c16Scan(msg, ct)
